@@ -476,6 +476,15 @@ func (s *Subscriber) SyncAdChain(ctx context.Context, peerInfo peer.AddrInfo, op
 		return cid.Undef, err
 	}
 
+	// Wait for any other sync of this publisher to finish. The lock is held
+	// from before the head is queried and the stop point is read until the
+	// latest sync is recorded: a sync that reads either while another sync of
+	// the publisher is still under way would start from a head, or stop at a
+	// point, that the other sync is about to overtake, report advertisements
+	// a second time and move the latest sync backwards.
+	hnd.syncMutex.Lock()
+	defer hnd.syncMutex.Unlock()
+
 	// Set depth limit to ads depth limit unless scoped depth is non-zero.
 	depthLimit := s.adsDepthLimit
 	if opts.depthLimit != 0 {
@@ -547,7 +556,7 @@ func (s *Subscriber) SyncAdChain(ctx context.Context, peerInfo peer.AddrInfo, op
 	if err != nil {
 		panic(err.Error())
 	}
-	syncCount, err := hnd.handle(ctx, nextCid, sel, syncer, opts.blockHook, segdl, stopAtCid)
+	syncCount, err := hnd.handleLocked(ctx, nextCid, sel, syncer, opts.blockHook, segdl, stopAtCid)
 	if err != nil {
 		hnd.resetSyncer(syncer)
 		return cid.Undef, fmt.Errorf("sync handler failed: %w", err)
@@ -992,6 +1001,11 @@ func (h *handler) asyncSyncAdChain(ctx context.Context) {
 	amsg := h.pendingMsg.Swap(nil)
 	verifhook.Point("async.took", h.peerID)
 
+	// Wait for any other sync of this publisher to finish, and only then
+	// look at the latest sync: see SyncAdChain.
+	h.syncMutex.Lock()
+	defer h.syncMutex.Unlock()
+
 	adsDepthLimit := h.subscriber.adsDepthLimit
 	nextCid := amsg.Cid
 	latestSyncLink := h.subscriber.GetLatestSync(h.peerID)
@@ -1035,7 +1049,7 @@ func (h *handler) asyncSyncAdChain(ctx context.Context) {
 		panic(err.Error())
 	}
 	sel := ExploreRecursiveWithStopNode(adsDepthLimit, h.subscriber.adsSelectorSeq, latestSyncLink)
-	syncCount, err := h.handle(ctx, nextCid, sel, syncer, h.subscriber.generalBlockHook, h.subscriber.segDepthLimit, stopAtCid)
+	syncCount, err := h.handleLocked(ctx, nextCid, sel, syncer, h.subscriber.generalBlockHook, h.subscriber.segDepthLimit, stopAtCid)
 	if err != nil {
 		h.resetSyncer(syncer)
 		// Failed to handle the sync, so allow another announce for the same CID.
@@ -1124,8 +1138,17 @@ func (h *handler) sendSyncFinishedEvent(c cid.Cid, count int) {
 	}
 }
 
-// handle processes a message from the peer that the handler is responsible for.
+// handle processes a message from the peer that the handler is responsible
+// for, after waiting for any other sync of that peer to finish.
 func (h *handler) handle(ctx context.Context, nextCid cid.Cid, sel ipld.Node, syncer Syncer, bh BlockHookFunc, segdl int64, stopAtCid cid.Cid) (int, error) {
+	verifhook.LockWait("sync.lock", h.peerID, &h.syncMutex)
+	h.syncMutex.Lock()
+	defer h.syncMutex.Unlock()
+	return h.handleLocked(ctx, nextCid, sel, syncer, bh, segdl, stopAtCid)
+}
+
+// handleLocked is handle for a caller that holds syncMutex.
+func (h *handler) handleLocked(ctx context.Context, nextCid cid.Cid, sel ipld.Node, syncer Syncer, bh BlockHookFunc, segdl int64, stopAtCid cid.Cid) (int, error) {
 	log := log.With("cid", nextCid, "peer", h.peerID)
 
 	segSync := &segmentedSync{
@@ -1145,11 +1168,9 @@ func (h *handler) handle(ctx context.Context, nextCid cid.Cid, sel ipld.Node, sy
 		}
 	}
 
-	// Wait for any previous sync for this peer ID to finish. This is necessary
-	// to protect the scopedBlockHook map from having having another hook
-	// mapped to this peer ID.
-	verifhook.LockWait("sync.lock", h.peerID, &h.syncMutex)
-	h.syncMutex.Lock()
+	// No other sync for this peer ID is running: the caller holds syncMutex.
+	// That also keeps the scopedBlockHook map from having another hook mapped
+	// to this peer ID.
 	h.subscriber.scopedBlockHookMutex.Lock()
 	h.subscriber.scopedBlockHook[h.peerID] = hook
 	h.subscriber.scopedBlockHookMutex.Unlock()
@@ -1157,7 +1178,6 @@ func (h *handler) handle(ctx context.Context, nextCid cid.Cid, sel ipld.Node, sy
 		h.subscriber.scopedBlockHookMutex.Lock()
 		delete(h.subscriber.scopedBlockHook, h.peerID)
 		h.subscriber.scopedBlockHookMutex.Unlock()
-		h.syncMutex.Unlock()
 	}()
 
 	var syncBySegment bool
